@@ -136,6 +136,11 @@ func genC3Inputs(r *hx.Rng, n int) [][]byte {
 			emit(cat(b, r.Bytes(60, nil)))
 		}
 	}
+	// meta (ISO: version/flags word; QuickTime: children at once) for the encoder pair (M lines); its decoder pair stays explored
+	for k := 0; k <= 2; k++ {
+		emit(box("meta", u32(0), box("hdlr", u32(0), u32(0), []byte("mdir"), make([]byte, 12), []byte{0}), pfxKids(r, k)))
+		emit(box("meta", box("hdlr", u32(0), u32(0), []byte("mdta"), make([]byte, 12), []byte{0}), pfxKids(r, k)))
+	}
 	// dref with a lying entry count
 	for _, d := range []int{1, -1, 1 << 20} {
 		for k := 0; k <= 2; k++ {
@@ -166,6 +171,13 @@ func pfxEncLine(b mp4.Box) string {
 		return fmt.Sprintf("pfx\t%x:%d:w2:%d:%d:%d\t-\t%s\t%s", x.Type(), x.Size(), x.Version, x.Flags, x.EntryCount, encBoxes(x.Children), encBoth(x))
 	case *mp4.TrepBox:
 		return fmt.Sprintf("pfx\t%x:%d:w2:%d:%d:%d\t-\t%s\t%s", x.Type(), x.Size(), x.Version, x.Flags, x.TrackID, encBoxes(x.Children), encBoth(x))
+	case *mp4.MetaBox:
+		// version/flags word unless it is a QuickTime meta atom (unexported flag): told from Size()
+		var kids uint64
+		for _, c := range x.Children {
+			kids += c.Size()
+		}
+		return fmt.Sprintf("pfx\t%x:%d:meta:%d:%d:%d\t-\t%s\t%s", x.Type(), x.Size(), x.Size()-8-kids, x.Version, x.Flags, encBoxes(x.Children), encBoth(x))
 	case *mp4.WvttBox:
 		return fmt.Sprintf("pfx\t%x:%d:wvtt:%d\t-\t%s\t%s", x.Type(), x.Size(), x.DataReferenceIndex, encBoxes(x.Children), encBoth(x))
 	case *mp4.AudioSampleEntryBox:
